@@ -1,7 +1,7 @@
 (* C19 - executable checker run on generated cases: the model's three texts are compared with what
    the implementation produced, and the reference readers (the verified oracle) are evaluated on the
    implementation's texts.  No theorem depends on this file. *)
-From Coq Require Import NArith ZArith List Bool String.
+From Coq Require Import NArith ZArith List Bool String Strings.Byte.
 From PJ Require Import Base.Prelude Render.RText Render.RHtml Render.RJson Render.RModel Render.RGrammar Render.RSpec.
 Import ListNotations.
 
@@ -68,3 +68,53 @@ Definition mk_task id name st en ms res est spent minst preds sec opn bar nst ex
      t_bar_key := bar; t_net_style := nst; t_extra := extra; t_prog_txt := prog |}.
 Definition mk_num txt p q : num := {| n_txt := txt; n_num := p; n_den := q |}.
 Definition mk_cfg title wk tick : gcfg := {| g_title := title; g_weekends := wk; g_tick := tick |}.
+
+(* ---- whole documents (evaluated on a few cases per run, the texts are long) ------------------- *)
+Fixpoint ltrim_ws (s : text) : text :=
+  match s with
+  | c :: r => if is_ws c then ltrim_ws r else s
+  | [] => []
+  end.
+Definition rtrim_ws (s : text) : text := rev (ltrim_ws (rev s)).
+Definition trim_nl (s : text) : text := rtrim_ws (ltrim_ws s).
+Definition div_open : text := Eval vm_compute in T "<div class=""mermaid"">".
+Definition div_close : text := Eval vm_compute in T "</div".
+Definition script_open : text := Eval vm_compute in T "<script>".
+Definition script_close : text := Eval vm_compute in T "</script".
+Definition parse_call_end : text := Eval vm_compute in T ");".
+
+Definition ends_with (suffix s : text) : bool := starts_with (rev suffix) (rev s).
+
+(* kind 0: Mermaid document and the source it must show; kind 1: DHTMLX document and its JSON;
+   kind 2: _repr_html_() and to_html() *)
+Definition doc_case : Type := nat * text * text.
+Definition check_doc (c : doc_case) : nat :=
+  let '(kind, doc, inner) := c in
+  match kind with
+  | 0%nat =>
+      match element_text div_open div_close doc with
+      | Some body => if negb (has_char 60 body) && text_eqb (trim_nl (unescape_html body)) (trim_nl inner)
+                     then 0%nat else 1%nat
+      | None => 1%nat
+      end
+  | 1%nat =>
+      match element_text script_open script_close doc with
+      | Some body => if ends_with (inner ++ parse_call_end) (rtrim_ws body) then 0%nat else 1%nat
+      | None => 1%nat
+      end
+  | _ => check_repr (doc, inner)
+  end.
+
+(* ---- compact literals for the generated case files -------------------------------------------- *)
+Inductive btext := BT (l : list Byte.byte).
+Definition bt_parse (l : list Byte.byte) : btext := BT l.
+Definition bt_print (b : btext) : list Byte.byte := match b with BT l => l end.
+Declare Scope bt_scope.
+Delimit Scope bt_scope with bt.
+String Notation btext bt_parse bt_print : bt_scope.
+
+(* a text as runs of printable ASCII (a string literal) and runs of other code points *)
+Inductive chunk := A (b : btext) | C (l : list N).
+Arguments A b%bt.
+Definition tx (l : list chunk) : text :=
+  flat_map (fun c => match c with A (BT bs) => map Byte.to_N bs | C l => l end) l.
